@@ -52,10 +52,17 @@ type harnessFile struct {
 	Data   []byte
 	Props  map[string]bool
 	Cases  []caseSpec
+	Variants map[string][]rewrite
+}
+
+// rewrite: replace Old by New in the repository file File (exact text, must occur exactly once).
+type rewrite struct {
+	File, Old, New string
 }
 
 var reCase = regexp.MustCompile(`^//verif:case\s+(\S+)\s+(quick|thorough)\s+(\S+)(.*)$`)
 var rePkg = regexp.MustCompile(`^//verif:pkg\s+(\S+)`)
+var reVariant = regexp.MustCompile(`^//verif:variant\s+(\S+)\s+(\S+)\s+"(.*)"\s+=>\s+"(.*)"$`)
 
 func parseRange(s string) ([]int64, error) {
 	var out []int64
@@ -99,6 +106,12 @@ func loadHarnesses() ([]*harnessFile, error) {
 			line = strings.TrimSpace(line)
 			if m := rePkg.FindStringSubmatch(line); m != nil {
 				h.PkgDir = m[1]
+			}
+			if m := reVariant.FindStringSubmatch(line); m != nil {
+				if h.Variants == nil {
+					h.Variants = map[string][]rewrite{}
+				}
+				h.Variants[m[1]] = append(h.Variants[m[1]], rewrite{File: m[2], Old: m[3], New: m[4]})
 			}
 			if m := reCase.FindStringSubmatch(line); m != nil {
 				cs := caseSpec{Prop: m[1], Tier: m[2], Entry: m[3], Opts: map[string]string{}, File: h.Name}
@@ -177,8 +190,41 @@ func pkgNameOf(repo, pkgDir string) (string, error) {
 }
 
 // buildOverlay returns the overlay map and the list of package patterns for the harness files.
-func buildOverlay(hs []*harnessFile, native bool) (map[string][]byte, []string, error) {
+// applyVariant adds the rewritten repository files of the named variant to the overlay.
+func applyVariant(hs []*harnessFile, variant string, overlay map[string][]byte) error {
+	if variant == "" {
+		return nil
+	}
+	found := false
+	for _, h := range hs {
+		for _, rw := range h.Variants[variant] {
+			found = true
+			path := filepath.Join(repoDir, rw.File)
+			data, ok := overlay[path]
+			if !ok {
+				var err error
+				data, err = os.ReadFile(path)
+				if err != nil {
+					return err
+				}
+			}
+			if strings.Count(string(data), rw.Old) != 1 {
+				return fmt.Errorf("variant %s: text %q does not occur exactly once in %s", variant, rw.Old, rw.File)
+			}
+			overlay[path] = []byte(strings.Replace(string(data), rw.Old, rw.New, 1))
+		}
+	}
+	if !found {
+		return fmt.Errorf("unknown variant %q", variant)
+	}
+	return nil
+}
+
+func buildOverlay(hs []*harnessFile, native bool, variant string) (map[string][]byte, []string, error) {
 	overlay := map[string][]byte{}
+	if err := applyVariant(hs, variant, overlay); err != nil {
+		return nil, nil, err
+	}
 	pkgs := map[string]bool{}
 	tmplName := "intrinsics_sym.go.tmpl"
 	if native {
@@ -347,6 +393,7 @@ func cmdCase(argv []string) int {
 	solver := fs.String("solver", "z3-new", "solver")
 	unwind := fs.Int("unwind", 80, "unwind bound")
 	out := fs.String("json", "", "write report JSON here")
+	variant := fs.String("variant", "", "source variant")
 	fs.Parse(argv)
 	hs, err := loadHarnesses()
 	if err != nil {
@@ -364,7 +411,7 @@ func cmdCase(argv []string) int {
 		return 2
 	}
 	sel = withSiblings(hs, sel)
-	l, err := loadProgram(sel, false)
+	l, err := loadProgram(sel, false, *variant)
 	if err != nil {
 		fmt.Fprintln(os.Stderr, err)
 		return 2
@@ -388,8 +435,8 @@ func cmdCase(argv []string) int {
 	} else {
 		rep := res[0].Report
 		if rep != nil {
-			fmt.Printf("paths=%d infeasible=%d decisions=%d steps=%d asserts(sym=%d conc=%d) queries(sat=%d unsat=%d unknown=%d, %.2fs max %.2fs) wall=%.2fs\n",
-				rep.Paths, rep.Infeasible, rep.Decisions, rep.Steps, rep.AssertsSym, rep.AssertsConc, rep.Queries.Sat, rep.Queries.Unsat, rep.Queries.Unknown, rep.Queries.Time.Seconds(), rep.Queries.MaxQuery.Seconds(), rep.WallS)
+			fmt.Printf("paths=%d infeasible=%d decisions=%d steps=%d asserts(sym=%d conc=%d) queries(sat=%d unsat=%d unknown=%d fallbacks=%d, %.2fs max %.2fs) wall=%.2fs\n",
+				rep.Paths, rep.Infeasible, rep.Decisions, rep.Steps, rep.AssertsSym, rep.AssertsConc, rep.Queries.Sat, rep.Queries.Unsat, rep.Queries.Unknown, rep.Queries.Fallbacks, rep.Queries.Time.Seconds(), rep.Queries.MaxQuery.Seconds(), rep.WallS)
 			var labels []string
 			for k := range rep.Discharged {
 				labels = append(labels, k)
@@ -431,8 +478,8 @@ func withSiblings(all, sel []*harnessFile) []*harnessFile {
 	return out
 }
 
-func loadProgram(hs []*harnessFile, native bool) (*symex.Loaded, error) {
-	overlay, pats, err := buildOverlay(hs, native)
+func loadProgram(hs []*harnessFile, native bool, variant string) (*symex.Loaded, error) {
+	overlay, pats, err := buildOverlay(hs, native, variant)
 	if err != nil {
 		return nil, err
 	}
@@ -441,6 +488,6 @@ func loadProgram(hs []*harnessFile, native bool) (*symex.Loaded, error) {
 	if err != nil {
 		return nil, err
 	}
-	fmt.Fprintf(os.Stderr, "loaded %v in %.1fs\n", pats, time.Since(t0).Seconds())
+	fmt.Fprintf(os.Stderr, "loaded %v variant=%q in %.1fs\n", pats, variant, time.Since(t0).Seconds())
 	return l, nil
 }
